@@ -7,6 +7,9 @@ CONSTANTS
   NonRecCross = FALSE
   B2B = TRUE
   WithRoot = TRUE
+  InodeReuse = FALSE
+  StickyCreated = FALSE
+  ViewSkipInCreatedRemoved = FALSE
   RecModes = {TRUE}
 INVARIANT Xlat_RenameIsOneMovedEvent
 CHECK_DEADLOCK FALSE
